@@ -18,22 +18,92 @@ CHECKS['C10'] = dict(
     design_ref='3.2', technique='bounded symbolic execution of src/mesh.py + z3 (QF_LRA) per path, geometric oracle',
     note='As C02. Flag convention taken from the code\'s own tests: on_boundary marks the border of the parameter '
          'rectangle, glued marks the seam; "boundary" in the property = on_boundary and not glued.')
+CHECKS['C01'] = dict(
+    category='other',
+    text='Structural part only: (P1) __integrate with recording stand-ins on every ordered pair of dyadic cells of 8 '
+         'symbolic units u, glued and open - z3 decides that the logged panels tile the rectangle and that every panel '
+         'gets the rule graded at its singular corner/diagonal; (P2) bilform evaluates each gamma only on its own '
+         'element\'s coordinate, both orders; (P3) recursion of the closed-form path; (P4) fint_1/2/4 mutually consistent '
+         'with exp/erf/Ei uninterpreted; (P5) four-term time kernel = specification for all time orderings. The 1e-7 '
+         'accuracy itself is NOT decided.',
+    design_ref='3.11', technique='symbolic execution of src/single_layer.py / single_layer_exact.py + z3 (QF_LRA per path); identities on canonical linear forms',
+    note='exp/Ei/erf uninterpreted; sqrt algebraic; math.isclose/fsum modelled; recording stand-ins for scheme objects; '
+         'grading convention of the rules stated in the evidence. Accuracy claims outside.')
+CHECKS['C04'] = dict(
+    category='other',
+    text='(V1) the six causality guards executed with symbolic time intervals: z3 decides on every path that the result is '
+         'the literal 0 exactly when the observation ends no later than the trial element begins (bilform, column worker, '
+         'potential, evaluate, evaluate_exact, residual); (V2) time kernel = four-term formula and >= 0 under the '
+         'concavity axiom for F_q, positive weights; (V3) mat[i][j] = bilform(trial_j, test_i) on the inline, serial and '
+         'column-worker paths with the space integration uninterpreted.',
+    design_ref='3.10', technique='symbolic execution of the guards and assembly loops + z3; sign modulo a stated axiom on Ei/exp',
+    note='Concavity of F_q (F\'\' = -G <= 0) is trusted mathematics; strict positivity and rounding outside; pool replaced by in-order map.')
+CHECKS['C05'] = dict(
+    category='other', engine='S+T',
+    text='Finite and complete: every lookup function executed on a symbolic integer key (z3 decides that the final '
+         'assert is reachable for no tabulated / exported key and that every returning path yields a well-formed pair); '
+         'every arm of the AST: Return statement, shapes, node range, weight sign; every advertised moment as a z3 query, '
+         'on the literals as written (1e-30) and on their double roundings (1e-13), log/sqrt classes through rational '
+         'enclosures (one QF_LRA query covers the whole box).',
+    design_ref='3.7', technique='symbolic-key execution + exact-rational moment queries (z3 QF_LRA over enclosure boxes)',
+    note='Enclosures: atanh series with explicit tail bound, integer square roots (trusted, cross-checked by mpmath in '
+         'replay). Two known findings (gauss_log 15 / 31 literals below 1e-30) are held to 1e-18 instead.')
+CHECKS['C06'] = dict(
+    category='model_checking',
+    text='dorfler_refine_isotropic / _anisotropic executed on real meshes (small grid + bounded history) with symbolic '
+         'indicators and symbolic theta^2: every outcome pattern of the sort / accumulation comparisons is a path, ties '
+         'included; z3 decides per path that the marked set is a shortest descending prefix reaching theta^2*total; the '
+         'resulting leaves must equal the reference model\'s least closure of the marked bisections; exceptions on '
+         'feasible paths are violations.',
+    design_ref='3.3', technique='bounded symbolic execution of src/mesh.py Doerfler routines + z3 (QF_LRA), reference closure',
+    note='Indicators normalised to sum 3 (homogeneity assumed), theta carried as q = theta^2, np.sqrt assertion compared '
+         'on squares; leaf bounds in evidence.')
+CHECKS['C11'] = dict(
+    category='other',
+    text='Time splits (test, trial, both) are exact identities between executions of the real bilform with the real '
+         'rules and symbolic times, on both evaluation paths, for every ordering of the instants; space splits on the '
+         'closed-form path for every ordered pair of dyadic cells of a side of 8 symbolic units. Space splits on the '
+         'quadrature path are NOT decided.',
+    design_ref='3.12', technique='two symbolic executions compared on canonical linear forms (exp/Ei/erf uninterpreted), z3 for path feasibility',
+    note='Identity verdicts are closed by normalisation; a residual difference is abstracted to QF_LRA and confirmed by float replay.')
+CHECKS['C12'] = dict(
+    category='other',
+    text='Exchange of space intervals, common time shift (all listed curves) and quarter turn / reflection of the unit '
+         'square incl. seam- and corner-crossing pairs of unequal size: identical canonical forms of the two executions, '
+         'symbolic times, exact-rational nodes. Pi square, circle rotations, the float tolerance are NOT decided.',
+    design_ref='3.13', technique='two symbolic executions compared on canonical linear forms; z3 for path feasibility',
+    note='Exact-constant mode (coordinates, nodes and weights as exact rationals of the doubles); exp/Ei/cos/sin uninterpreted.')
+CHECKS['C16'] = dict(
+    category='model_checking',
+    text='InitialMesh built on a square / L-shape of symbolic unit, every refine history up to the depth bound: z3 decides '
+         'tiling by axis-parallel dyadic squares and vertex distinctness, 2:1 balance on index rectangles; '
+         'refine_msh_bdr + vertex_from_coords on the three shipped factories with a symbolic dyadic segment (symbolic '
+         'integer k, level <= bound), both orientations, three input forms: returns the unique leaf with that edge.',
+    design_ref='3.5', technique='bounded symbolic execution of src/initial_mesh.py + z3 (QF_LRA / LIA)',
+    note='math.isclose modelled (array arguments go through NumPy\'s own scalar conversion); levels above the bound outside.')
+CHECKS['C18'] = dict(
+    category='other',
+    text='Polygon pieces and whole-curve eval on a symbolic parameter (arc length as polynomial identity, eval = piece, '
+         'continuity, closedness); MeshParametrized with a symbolic initial time grid of 1..4 (6) slabs on all five '
+         'curves after a bounded history: every leaf carries the piece containing its interval, a fresh time lies in >= 3 '
+         'leaves on closed curves, two leaves of a slab share at most one end point.',
+    design_ref='3.6', technique='symbolic execution of src/parametrization.py / MeshParametrized + z3 (QF_LRA)',
+    note='np.select / np.all modelled; circle arc length outside; constructors run concretely.')
+CHECKS['C19'] = dict(
+    category='model_checking',
+    text='refine_grading(sigma in {1,2}, K=4) on root grids shaped like the shipped curves (cell widths w or 2w, slab '
+         'heights tau or 2tau) with symbolic w, tau (bounded unit ratio) after a bounded history: every outcome pattern of '
+         'the size comparisons is a path; no exception on any feasible path, every leaf in the window afterwards, only '
+         'refines, mesh invariants.',
+    design_ref='3.4', technique='bounded symbolic execution of Mesh.refine_grading + z3 (QF_NRA for sigma = 2)',
+    note='sigma = 1.5 outside; unit ratio within [1/32, 32]; decision bound per path as unwinding assertion.')
 NA['C13'] = ('an eigenvalue bound on a matrix whose entries are quadratures of Ei/exp: no fragment of it is a '
              'statement an SMT solver can decide about the real code (DESIGN 3.20)')
-NA['C01'] = 'check not built yet (work in progress; see DESIGN.md for the plan)'
 NA['C03'] = 'check not built yet (work in progress; see DESIGN.md for the plan)'
-NA['C04'] = 'check not built yet (work in progress; see DESIGN.md for the plan)'
-NA['C05'] = 'check not built yet (work in progress; see DESIGN.md for the plan)'
-NA['C06'] = 'check not built yet (work in progress; see DESIGN.md for the plan)'
 NA['C07'] = 'check not built yet (work in progress; see DESIGN.md for the plan)'
 NA['C08'] = 'check not built yet (work in progress; see DESIGN.md for the plan)'
 NA['C09'] = 'check not built yet (work in progress; see DESIGN.md for the plan)'
-NA['C11'] = 'check not built yet (work in progress; see DESIGN.md for the plan)'
-NA['C12'] = 'check not built yet (work in progress; see DESIGN.md for the plan)'
 NA['C14'] = 'check not built yet (work in progress; see DESIGN.md for the plan)'
 NA['C15'] = 'check not built yet (work in progress; see DESIGN.md for the plan)'
-NA['C16'] = 'check not built yet (work in progress; see DESIGN.md for the plan)'
 NA['C17'] = 'check not built yet (work in progress; see DESIGN.md for the plan)'
-NA['C18'] = 'check not built yet (work in progress; see DESIGN.md for the plan)'
-NA['C19'] = 'check not built yet (work in progress; see DESIGN.md for the plan)'
 NA['C20'] = 'check not built yet (work in progress; see DESIGN.md for the plan)'
